@@ -1,12 +1,15 @@
 //! further operations (added per property)
 use serde_json::{json, Value};
 
-use crate::{cps_to_string, string_to_cps};
+use crate::{cps_to_string, pep440_from_json, pep440_to_json, semver_from_json, semver_to_json, string_to_cps};
+use zerv::version::{SemVer, Zerv, PEP440};
 
 pub fn dispatch(op: &str, req: &Value) -> Value {
     match op {
         "resolve_timestamp" => resolve_ts(req),
         "ts_sweep" => ts_sweep(req),
+        "semver_convert" => semver_convert(req),
+        "pep_convert" => pep_convert(req),
         _ => json!({"error": format!("unknown op {op}")}),
     }
 }
@@ -85,4 +88,29 @@ fn ts_sweep(req: &Value) -> Value {
         }
     }
     json!({"evaluations": n, "mismatches": bad})
+}
+
+fn semver_convert(req: &Value) -> Value {
+    let a = semver_from_json(&req["v"]);
+    let z: Zerv = a.clone().into();
+    let back: SemVer = z.clone().into();
+    let pep: PEP440 = z.clone().into();
+    let z2: Zerv = pep.clone().into();
+    let back2: SemVer = z2.into();
+    json!({"back": semver_to_json(&back), "pep": pep440_to_json(&pep), "back_from_pep": semver_to_json(&back2),
+        "printed": string_to_cps(&a.to_string()), "back_printed": string_to_cps(&back.to_string()),
+        "pep_printed": string_to_cps(&pep.to_string()), "back_from_pep_printed": string_to_cps(&back2.to_string())})
+}
+
+fn pep_convert(req: &Value) -> Value {
+    let a = pep440_from_json(&req["p"]);
+    let z: Zerv = a.clone().into();
+    let sv: SemVer = z.into();
+    let z2: Zerv = sv.clone().into();
+    let back: PEP440 = z2.into();
+    let z3: Zerv = sv.clone().into();
+    let sv2: SemVer = z3.into();
+    json!({"semver_printed": string_to_cps(&sv.to_string()), "semver_again_printed": string_to_cps(&sv2.to_string()),
+        "back": pep440_to_json(&back), "equal": a == back && a.cmp(&back) == std::cmp::Ordering::Equal,
+        "printed": string_to_cps(&a.to_string()), "back_printed": string_to_cps(&back.to_string())})
 }
